@@ -80,12 +80,15 @@ impl SequenceState {
 /// the keyberon layout behind `self.layout.bm()`: the three things read from it
 pub struct BLayout { pub default_layer: usize, pub verif_opaque: u8 }
 pub struct KeycodesIter { verif_opaque: u8 }
+impl KeycodesIter { pub uninterp spec fn items(&self) -> Seq<KeyCode>; }
 impl BLayout {
     pub uninterp spec fn down(&self) -> Seq<KeyCode>;
     pub uninterp spec fn order(&self) -> Seq<u16>;
     /// the key codes kanata currently holds down (iterator over the layout's states)
     #[verifier::external_body]
-    fn keycodes(&self) -> KeycodesIter { unimplemented!() }
+    fn keycodes(&self) -> (r: KeycodesIter)
+        ensures r.items() == self.down(),
+    { unimplemented!() }
     /// held layers, most recently activated first (what transparent keys resolve through)
     #[verifier::external_body]
     fn trans_resolution_layer_order(&self) -> (r: Vec<u16>)
@@ -101,14 +104,17 @@ impl KanataLayout {
 /// keys the layout holds down
 #[verifier::external_body]
 fn verif_extend(v: &mut Vec<KeyCode>, it: KeycodesIter)
+    ensures final(v)@ == old(v)@ + it.items(),
 { unimplemented!() }
 pub struct Overrides { verif_opaque: u8 }
 pub struct OverrideStates { verif_opaque: u8 }
 impl Overrides {
     /// global overrides rewrite the list of keys about to be held (property C13, not decided here):
-    /// any change of the list is allowed
+    /// SOME function of the table and the list - which one is not said, only that it is applied
+    pub uninterp spec fn ov_spec(&self, keys: Seq<KeyCode>) -> Seq<KeyCode>;
     #[verifier::external_body]
     fn override_keys(&self, keys: &mut Vec<KeyCode>, states: &mut OverrideStates)
+        ensures final(keys)@ == self.ov_spec(old(keys)@),
     { unimplemented!() }
 }
 /// the OS output: a ghost log of what was written
@@ -204,6 +210,9 @@ proof fn lemma_held_skip(order: Seq<u16>, k: int, i: int, ko: Seq<HashMap<OsCode
         // hidden sequence modes: nothing is forwarded
         old(self).sequence_state.verif_active && old(self).sequence_state.sequence_input_mode != SequenceInputMode::VisibleBackspaced ==>
             final(self).kbd_out.verif_log@ == old(self).kbd_out.verif_log@ && r is Ok,
+        // "currently pressed" is judged on the keys the layout holds down, adjusted by the overrides
+        !(old(self).sequence_state.verif_active && old(self).sequence_state.sequence_input_mode != SequenceInputMode::VisibleBackspaced) ==>
+            final(self).cur_keys@ == old(self).overrides.ov_spec(old(self).cur_keys@ + old(self).layout.verif_inner.down()),
         // otherwise AT MOST ONE event is written, it is a Repeat, and it is for exactly the key
         // repeat_pick names - which is active (currently pressed at the OS output)
         !(old(self).sequence_state.verif_active && old(self).sequence_state.sequence_input_mode != SequenceInputMode::VisibleBackspaced) ==> {
@@ -213,7 +222,7 @@ proof fn lemma_held_skip(order: Seq<u16>, k: int, i: int, ko: Seq<HashMap<OsCode
             &&& p matches Some(o) ==> final(self).kbd_out.verif_log@ == old(self).kbd_out.verif_log@.push((o, KeyValue::Repeat))
                     && active(kc_of(o), final(self).cur_keys@, old(self).unshifted_keys@, old(self).unmodded_keys@)
         },
-//@@ after-re 1 /\.override_keys\([^;]*\);/
+//@@ before-re 1 /let active_held_layers/
     let ghost cur = self.cur_keys@;
     let ghost ko = self.key_outputs@;
     let ghost unsh = self.unshifted_keys@;
@@ -227,6 +236,7 @@ proof fn lemma_held_skip(order: Seq<u16>, k: int, i: int, ko: Seq<HashMap<OsCode
             self.cur_keys@ == cur, self.key_outputs@ == ko, self.unshifted_keys@ == unsh, self.unmodded_keys@ == unmod,
             self.kbd_out.verif_log@ == log0, self.layout == old(self).layout, code == event.code,
             ko == old(self).key_outputs@, unsh == old(self).unshifted_keys@, unmod == old(self).unmodded_keys@, log0 == old(self).kbd_out.verif_log@,
+            cur == old(self).overrides.ov_spec(old(self).cur_keys@ + old(self).layout.verif_inner.down()),
             order == old(self).layout.verif_inner.order(),
             !(old(self).sequence_state.verif_active && old(self).sequence_state.sequence_input_mode != SequenceInputMode::VisibleBackspaced),
             forall|i: int| 0 <= i < order.len() ==> (#[trigger] order[i] as int) < ko.len(),
@@ -240,6 +250,7 @@ proof fn lemma_held_skip(order: Seq<u16>, k: int, i: int, ko: Seq<HashMap<OsCode
                     self.cur_keys@ == cur, self.key_outputs@ == ko, self.unshifted_keys@ == unsh, self.unmodded_keys@ == unmod,
                     self.kbd_out.verif_log@ == log0, self.layout == old(self).layout, code == event.code,
                     ko == old(self).key_outputs@, unsh == old(self).unshifted_keys@, unmod == old(self).unmodded_keys@, log0 == old(self).kbd_out.verif_log@,
+                    cur == old(self).overrides.ov_spec(old(self).cur_keys@ + old(self).layout.verif_inner.down()),
                     order == old(self).layout.verif_inner.order(),
                     !(old(self).sequence_state.verif_active && old(self).sequence_state.sequence_input_mode != SequenceInputMode::VisibleBackspaced),
                     0 <= itl.index@ < order.len(), order[itl.index@ as int] == layer, (layer as int) < ko.len(),
@@ -273,6 +284,7 @@ proof fn lemma_held_skip(order: Seq<u16>, k: int, i: int, ko: Seq<HashMap<OsCode
                 self.cur_keys@ == cur, self.key_outputs@ == ko, self.unshifted_keys@ == unsh, self.unmodded_keys@ == unmod,
                 self.kbd_out.verif_log@ == log0, self.layout == old(self).layout, code == event.code,
                 ko == old(self).key_outputs@, unsh == old(self).unshifted_keys@, unmod == old(self).unmodded_keys@, log0 == old(self).kbd_out.verif_log@,
+                cur == old(self).overrides.ov_spec(old(self).cur_keys@ + old(self).layout.verif_inner.down()),
                 order == old(self).layout.verif_inner.order(), dl == old(self).layout.verif_inner.default_layer as int,
                 !(old(self).sequence_state.verif_active && old(self).sequence_state.sequence_input_mode != SequenceInputMode::VisibleBackspaced),
                 0 <= dl < ko.len(), ko[dl]@.contains_key(code) && ko[dl]@[code]@ == outs,
